@@ -486,6 +486,65 @@ theorem C09_handshake_option_reuses (v : Int) (inst : Nat) (fs : List TFlight)
   rw [this]
   exact C09_default_transport_reuses v (1 * sec) true inst fs hg hc hp
 
+/-- the gun section that gives exactly the options of `ro` -/
+def optsOf (ro : ReuseOpts) : List TransportOpt :=
+  (match ro.idle with | some v => [("idle-conn-timeout", v)] | none => []) ++
+  (match ro.rht with | some v => [("response-header-timeout", v)] | none => []) ++
+  (match ro.mic with | some v => [("max-idle-conns", v)] | none => []) ++
+  (match ro.mich with | some v => [("max-idle-conns-per-host", v)] | none => [])
+
+/-- the transport of `optsOf ro`, field by field: the given value, else pandora's default -/
+theorem transportOf_optsOf (ro : ReuseOpts) :
+    (transportOf (optsOf ro)).idleConnTimeout = ro.idle.getD (90 * sec) ∧
+    (transportOf (optsOf ro)).responseHeaderTimeout = ro.rht.getD 0 ∧
+    (transportOf (optsOf ro)).maxIdleConns = ro.mic.getD 0 ∧
+    (transportOf (optsOf ro)).maxIdleConnsPerHost = ro.mich.getD 0 ∧
+    (transportOf (optsOf ro)).disableKeepAlives = false := by
+  obtain ⟨idle, rht, mic, mich⟩ := ro
+  cases idle <;> cases rht <;> cases mic <;> cases mich <;>
+    simp [transportOf, optsOf, setTransportOpt, transportTags, newTransport, defaultTransportCfg]
+
+/-- **The Spec's reading of the documentation is the code's behaviour.** `reuseExpected` (Spec: the options as given, the
+documented default of 90 s for `idle-conn-timeout`, "zero means no limit") holds for the pauses and delays of a run ⇒ the
+transport pandora builds from these options keeps connections, none expires and no answer is lost, so `inst` instances
+that do not ask to close see at most `inst` connections. Whenever the Spec judges the keep-alive bound, the model meets it. -/
+theorem C09_reuse_expected_sound (ro : ReuseOpts) (mp md inst : Nat) (fs : List TFlight)
+    (h : reuseExpected ro mp md = true) (hg : ∀ f ∈ fs, f.gun < inst) (hc : ∀ f ∈ fs, f.close = false)
+    (hp : ∀ f ∈ fs, f.pause ≤ mp ∧ f.delay ≤ md) :
+    tconnRun (transportOf (optsOf ro)) inst fs ≤ inst := by
+  obtain ⟨t1, t2, t3, t4, t5⟩ := transportOf_optsOf ro
+  simp only [reuseExpected, docIdleConnTimeout, Bool.and_eq_true, Bool.or_eq_true] at h
+  obtain ⟨⟨⟨h1, h2⟩, h3⟩, h4⟩ := h
+  have hk : keeps (transportOf (optsOf ro)) = true := by
+    simp only [keeps, t3, t4, t5, Bool.not_false, Bool.true_and, Bool.and_eq_true, decide_eq_true_eq]
+    constructor
+    · cases hm : ro.mich with
+      | none => simp
+      | some v => simpa [hm] using h4
+    · cases hm : ro.mic with
+      | none => simp
+      | some v => simpa [hm] using h3
+  apply C09_connections_timed_keepalive _ inst fs hk hg hc
+  intro f hf
+  obtain ⟨hp1, hp2⟩ := hp f hf
+  constructor
+  · simp only [idleExpired, t1, sec, Bool.and_eq_false_iff, decide_eq_false_iff_not, Int.reduceMul]
+    simp only [Int.reduceMul] at h1
+    have : (f.pause : Int) ≤ (mp : Int) := by exact_mod_cast hp1
+    rcases h1 with h1 | h1
+    · left; have := of_decide_eq_true h1; omega
+    · right; have := of_decide_eq_true h1; omega
+  · simp only [responseLost, t2, Bool.and_eq_false_iff, decide_eq_false_iff_not]
+    have : (f.delay : Int) ≤ (md : Int) := by exact_mod_cast hp2
+    cases hr : ro.rht with
+    | none => left; simp
+    | some v =>
+      simp only [hr, Bool.or_eq_true, decide_eq_true_eq] at h2
+      simp only [Option.getD_some]
+      rcases h2 with h2 | h2
+      · left; omega
+      · right; omega
+
 /-- an idle timeout below the pauses is the operator's own demand: a lone instance that pauses at least that long before
 every request dials for each of them -/
 theorem C09_idle_timeout_expires (t : Transport) (fs : List TFlight) (hg : ∀ f ∈ fs, f.gun = 0)
@@ -764,9 +823,17 @@ example :
     keeps (transportOf [("max-idle-conns-per-host", -1)]) = false ∧
     ((1200000000 : Nat) : Int) < 90 * sec := by decide
 
+/-- `C09_reuse_expected_sound`: the seeded witness — nothing but pauses of 0.8 s — and an idle timeout of 2 s given -/
+example : reuseExpected {} 800000000 0 = true ∧ reuseExpected { idle := some (2 * sec) } 300000000 0 = true ∧
+    reuseExpected { idle := some (300 * msec) } 800000000 0 = false ∧ reuseExpected { mich := some (-1) } 0 0 = false := by
+  decide
+
 /-- `C09_reuse_options_only`: two configurations that differ in the handshake timeout only -/
 example : ({ defaultTransportCfg with tlsHandshakeTimeout := 5 } : TransportCfg).idleConnTimeout =
     defaultTransportCfg.idleConnTimeout := rfl
+
+/-- `C09_connect_tunnel`: a found address is not empty -/
+example : Lookup.found [49, 58, 56, 48] ≠ Lookup.found [] := by decide
 
 /-- `C09_absolute_form`: `https://h/p` -/
 example : (if true then httpsPfx else httpPfx) ++ [104] ++ 47 :: [112] =
